@@ -159,11 +159,15 @@ pub struct MemLeave {
     pub reason: crate::mem::Reason,
     pub key: u64,
     pub stamp: Option<Stamp>,
+    /// logical time (the io wrapper's clock) at which the listener was called
+    #[serde(default)]
+    pub t: u64,
 }
 
 #[derive(Default, Debug)]
 pub struct HLog {
     pub leaves: Mutex<Vec<MemLeave>>,
+    pub clock: std::sync::OnceLock<Arc<IoCtl>>,
 }
 
 struct HListener(Arc<HLog>);
@@ -171,7 +175,8 @@ impl EventListener for HListener {
     type Key = u64;
     type Value = Vec<u8>;
     fn on_leave(&self, reason: Event, key: &u64, value: &Vec<u8>) {
-        self.0.leaves.lock().push(MemLeave { reason: reason.into(), key: *key, stamp: value::parse(value).ok() });
+        let t = self.0.clock.get().map(|c| c.now()).unwrap_or(0);
+        self.0.leaves.lock().push(MemLeave { reason: reason.into(), key: *key, stamp: value::parse(value).ok(), t });
     }
 }
 
@@ -186,12 +191,15 @@ pub struct Controls {
 
 impl Controls {
     pub fn new() -> Self {
+        let io = Arc::new(IoCtl::default());
+        let log = Arc::new(HLog::default());
+        let _ = log.clock.set(io.clone());
         Controls {
-            io: Arc::new(IoCtl::default()),
+            io,
             flush_switch: Switch::default(),
             load_holder: Holder::default(),
             load_throttle: LoadThrottleSwitch::default(),
-            log: Arc::new(HLog::default()),
+            log,
             admissions: Default::default(),
         }
     }
